@@ -141,9 +141,11 @@ def load(repo=None, features=(), use_cache=True):
 def _prune_cache(keep, max_files=600):
     try:
         for f in os.listdir(CACHE):          # uncompressed files of earlier versions of this cache
-            if f.startswith("facts-") and f.endswith(".json"):
+            if f.startswith("facts-") and (f.endswith(".json") or f.endswith(".json.tmp")):
                 try:
-                    os.remove(os.path.join(CACHE, f))
+                    # another process may be writing / compressing such a file right now: only stale ones go
+                    if time.time() - os.path.getmtime(os.path.join(CACHE, f)) > 900:
+                        os.remove(os.path.join(CACHE, f))
                 except OSError:
                     pass
         fs = [os.path.join(CACHE, f) for f in os.listdir(CACHE) if f.startswith("facts-") and f.endswith(".json.gz")]
